@@ -34,6 +34,7 @@ def make_conn_class():
             self.sched = []       # [(abs arrival us, frame bytes | None for fault)]
             self.open_calls = 0
             self.close_calls = 0
+            self.send_fault = None    # exception class raised once by the next specific_send, after it has recorded the frame
 
         def open(self):
             self.opened = True
@@ -52,8 +53,11 @@ def make_conn_class():
             while self.sched and self.sched[0][0] <= self.clk.us:
                 self.sched.pop(0)
 
-        def specific_send(self, payload):
+        def specific_send(self, payload, timeout=None):
             self.log.append([2] + enc_bytes(payload))
+            if self.send_fault is not None:
+                f, self.send_fault = self.send_fault, None
+                raise f('injected transport fault after the frame was written')
 
         def specific_wait_frame(self, timeout=2):
             t = int(round(timeout * 1e6))
@@ -70,6 +74,26 @@ def make_conn_class():
 
 
 _Conn = None
+
+
+class _StructError(Exception):
+    pass
+
+
+def _send_faults():
+    import struct
+    from udsoncan.exceptions import TimeoutException
+    return {1: ValueError, 4: TimeoutException, 8: OSError, 20: IndexError, 21: struct.error, 22: AttributeError, 23: TypeError,
+            24: OverflowError, 26: KeyError}
+
+
+class _LazyFaults(dict):
+    def __missing__(self, k):
+        self.update(_send_faults())
+        return dict.__getitem__(self, k)
+
+
+SEND_FAULTS = _LazyFaults()
 
 
 def setup():
@@ -277,9 +301,18 @@ def do_call(client, callid, args, blobs):
     from udsoncan import Request
     from udsoncan.BaseService import BaseService
     if callid == 1:
-        sid, sub, spr, hasd, to = args
+        sid, sub, spr, hasd, to = args[:5]
         svc = BaseService.from_request_id(sid) if sid >= 0 else None
-        req = Request(svc, None if sub < 0 else sub, bool(spr), blobs[0] if hasd else None)
+        req = None
+        if len(args) > 5 and args[5] == 1:
+            # the application keeps one Request object and sends it again (a Request is a value: sending it twice is sending two equal requests)
+            cache = client.__dict__.setdefault('_verif_requests', {})
+            key = (sid, sub, spr, hasd, bytes(blobs[0]) if hasd else None)
+            req = cache.get(key)
+            if req is None:
+                req = cache[key] = Request(svc, None if sub < 0 else sub, bool(spr), blobs[0] if hasd else None)
+        if req is None:
+            req = Request(svc, None if sub < 0 else sub, bool(spr), blobs[0] if hasd else None)
         return (client.send_request(req) if to < 0 else client.send_request(req, timeout=to / 1e6)), (lambda r: [])
     if callid == 2:
         return client.change_session(args[0]), sd_change_session
@@ -394,6 +427,19 @@ def run_history_case(c, extra_cfg=None):
                 conn.log.append([6, timeout_kind(exc)])
             out += res + [len(conn.log)] + [x for e in conn.log for x in e] + [clk.us]
             conn.sched = []
+        elif opc == 7:
+            code, callid, nargs = a[pos + 1], a[pos + 2], a[pos + 3]
+            args = a[pos + 4:pos + 4 + nargs]
+            pos += 4 + nargs
+            ncb = a[pos]
+            pos += 1
+            cb, b = b[:ncb], b[ncb:]
+            conn.sched = []
+            conn.log = []
+            conn.send_fault = SEND_FAULTS[code]
+            res, exc = enc_outcome(lambda: do_call(client, callid, args, cb))
+            conn.send_fault = None
+            out += res + [len(conn.log)] + [x for e in conn.log for x in e] + [clk.us]
         elif opc == 5:
             slot, v = a[pos + 1], a[pos + 2]
             try:
@@ -464,6 +510,13 @@ class H:
             self.ints += [d, 0 if f is not None else 1]
             if f is not None:
                 self.blobs.append(f)
+        self.n += 1
+        return self
+
+    def call_send_fault(self, callid, args=(), blobs=(), code=8):
+        """the call on a connection whose specific_send raises (error class `code`) after writing the frame"""
+        self.ints += [7, code, callid, len(args)] + list(args) + [len(blobs)]
+        self.blobs += list(blobs)
         self.n += 1
         return self
 
@@ -600,4 +653,12 @@ def case_ops(c):
             ops.append(('set_cfg', a[pos + 1], a[pos + 2])); pos += 3
         elif opc == 6:
             ops.append(('advance', a[pos + 1])); pos += 2
+        elif opc == 7:
+            code, callid, nargs = a[pos + 1], a[pos + 2], a[pos + 3]
+            args = a[pos + 4:pos + 4 + nargs]
+            pos += 4 + nargs
+            ncb = a[pos]
+            pos += 1
+            cb, b = b[:ncb], b[ncb:]
+            ops.append(('call_send_fault', callid, args, cb, code))
     return cfgv, ops
